@@ -608,3 +608,108 @@ func witnessMapOmission(rep *Report, model string) {
 		}
 	}
 }
+
+// members held in interfaces ([]any and map[string]any values): pointers to scalars, named scalar
+// types, typed nil pointers, mixed with plain members: all encoders must describe the tree that
+// encoding/json describes
+type dLevel int
+type dLabel string
+type dFlag bool
+type dRatio float64
+type dReading struct {
+	Name   string
+	Values []any
+	Extra  map[string]any
+}
+
+func suiteIfaceMembers(tier string, seed uint64) *Report {
+	rep := &Report{Property: "C15", Tier: tier, Seed: seed}
+	r := NewRng(seed + 1515)
+	n := 120
+	if tier == "thorough" {
+		n = 3000
+	}
+	pool := func() any {
+		i, f, s, b := r.Intn(9), float64(r.Intn(9))+0.5, r.Pick([]string{"ab", "", "x y"}), r.Bool()
+		var np *int
+		var nl *dLabel
+		switch r.Intn(14) {
+		case 0:
+			return &i
+		case 1:
+			return &f
+		case 2:
+			return &s
+		case 3:
+			return &b
+		case 4:
+			return dLevel(i)
+		case 5:
+			return dLabel(s)
+		case 6:
+			return dFlag(b)
+		case 7:
+			return dRatio(f)
+		case 8:
+			return np
+		case 9:
+			return nl
+		case 10:
+			return int64(i)
+		case 11:
+			return s
+		case 12:
+			return nil
+		default:
+			return []any{&i, dLevel(i)}
+		}
+	}
+	for c := 0; c < n; c++ {
+		m := 1 + r.Intn(5)
+		vals := make([]any, m)
+		for j := range vals {
+			vals[j] = pool()
+		}
+		var v any = vals
+		switch r.Intn(4) {
+		case 1:
+			v = map[string]any{"k": vals, "z": pool()}
+		case 2:
+			v = &dReading{Name: "n", Values: vals, Extra: map[string]any{"k": []any{pool(), pool()}}}
+		case 3:
+			v = []any{vals, map[string]any{"a": pool()}}
+		}
+		wantB, err := json.Marshal(v)
+		if err != nil {
+			continue
+		}
+		want := parsedShow(string(wantB), false)
+		rep.Evaluations++
+		for _, indent := range []int{0, 2} {
+			o := ojg.Options{Sort: true, Indent: indent, KeyExact: true}
+			encs := []struct {
+				name string
+				sen  bool
+				run  func() string
+			}{
+				{"oj.JSON", false, func() string { return oj.JSON(v, &o) }},
+				{"sen.String", true, func() string { return sen.String(v, &o) }},
+				{"pretty.JSON", false, func() string { return pretty.JSON(v, &o) }},
+				{"pretty.SEN", true, func() string { return pretty.SEN(v, &o) }},
+				{"alt.Decompose+oj.JSON", false, func() string { return oj.JSON(alt.Decompose(v, &o), &o) }},
+			}
+			for _, e := range encs {
+				text := safe(e.run)
+				got := text
+				if !strings.HasPrefix(text, "F ") {
+					got = parsedShow(text, e.sen)
+				}
+				if got != want {
+					rep.Add(Disagreement{Case: string(wantB), Where: fmt.Sprintf("%s indent=%d", e.name, indent), Kind: "impl-vs-spec:iface-members", Impl: got, Spec: want, Detail: text})
+				}
+			}
+		}
+	}
+	rep.Rule = "interface-held members: []any / map[string]any values (top level, in a map, in a struct field) holding pointers to scalars, named scalar types, typed nil pointers and plain values; oj.JSON, sen.String, pretty.JSON, pretty.SEN (tight and indented) and alt.Decompose must describe the tree encoding/json describes"
+	return rep
+}
